@@ -163,8 +163,8 @@ def conds(tier):
     if q:
         gl = [P("li", "int", 0, 2), P("ei", "int", 0, 4), P("si", "int", 0, 2), P("blk", "int", 1, 3)]
     else:
-        gl = [P("li", "int", 0, len(LABELS)), P("ei", "int", 0, len(EDGES)), P("si", "int", 0, len(SEPS)),
-              P("blk", "int", 1, 4)]
+        gl = [P("li", "int", 0, 3), P("ei", "int", 0, len(EDGES)), P("si", "int", 0, len(SEPS)),
+              P("blk", "int", 1, 3)]
     cs.append(Cond("getlabel", "harness.c20:getlabel",
                    gl + [P("term", "bool"), P("gf", "bool"), P("gft", "bool"), P("mh", "bool"), P("bm", "bool"),
                          P("bn", "bool"), P("head", "bool"), P("split", "bool")],
